@@ -1188,8 +1188,11 @@ static qtreetbl_obj_t *put_obj(qtreetbl_t *tbl, qtreetbl_obj_t *obj,
                                const void *name, size_t namesize,
                                const void *data, size_t datasize) {
     if (obj == NULL) {
-        tbl->num++;
-        return new_obj(true, name, namesize, data, datasize);
+        qtreetbl_obj_t *newobj = new_obj(true, name, namesize, data, datasize);
+        if (newobj != NULL) {
+            tbl->num++;
+        }
+        return newobj;
     }
 
 #ifdef LLRB234
